@@ -3,6 +3,7 @@
 package system
 
 import (
+	dtpb "github.com/google/fhir/go/proto/google/fhir/proto/r4/core/datatypes_go_proto"
 	"time"
 
 	"github.com/verily-src/fhirpath-go/internal/verifrt"
@@ -76,7 +77,10 @@ func verifDate(label string) (Date, verifCivil) {
 }
 
 // verifTime draws a Time of day with an arbitrary precision.
-func verifTime(label string) (Time, verifCivil) {
+func verifTime(label string) (Time, verifCivil) { return verifTimeSrc(label, false) }
+
+// verifTimeSrc: with elements, a second- or millisecond-precision Time may also come from a FHIR time element.
+func verifTimeSrc(label string, elements bool) (Time, verifCivil) {
 	li := verifrt.Choose(label+".layout", 4)
 	c := verifCivil{h: verifrt.NondetIntRange(label+".h", 0, 23), rank: li}
 	if li >= 1 {
@@ -87,6 +91,14 @@ func verifTime(label string) (Time, verifCivil) {
 	}
 	if li >= 3 {
 		c.ms = verifrt.NondetIntRange(label+".ms", 0, 999)
+	}
+	if elements && li >= 2 && verifrt.NondetBool(label+".fromElement") {
+		// the way a FHIR time element enters an evaluation (system.From -> TimeFromProto)
+		p := dtpb.Time_SECOND
+		if li == 3 {
+			p = dtpb.Time_MILLISECOND
+		}
+		return TimeFromProto(&dtpb.Time{ValueUs: (int64(c.h)*3600+int64(c.mi)*60+int64(c.s))*1000000 + int64(c.ms)*1000, Precision: p}), c
 	}
 	return Time{time.Date(0, 1, 1, c.h, c.mi, c.s, c.ms*1000000, time.UTC), verifTimeLayouts[li]}, c
 }
